@@ -17,8 +17,18 @@ def session(kind, rng, length, ops_filter=None):
     n = int(rng.integers(8, 120))
     dt = float(rng.choice([0.01, 0.02, 0.005, 0.5]))
     x = _rec(n, rng) * float(rng.choice([1.0, 1.0, 1e-9, 1e6]))
-    o = cls(x.copy(), dt)
-    ev = [{"op": "construct", "vals": enc_seq(x), "dt": enc(dt)}]
+    # response periods of the AccSignal's own (ascending, shortest 3 .. 30 steps: the refinement rule matters), sometimes with
+    # a leading zero period
+    def new_rt():
+        r = np.sort(rng.uniform(3.0, 30.0) * dt * np.array([1.0, rng.uniform(1.5, 4.0), rng.uniform(5.0, 20.0)]))
+        return np.concatenate([[0.0], r]) if rng.integers(4) == 0 else r
+    rt = new_rt()
+    if kind == "AccSignal":
+        o = cls(x.copy(), dt, response_times=rt.copy())
+        ev = [{"op": "construct", "vals": enc_seq(x), "dt": enc(dt), "rt": enc_seq(rt)}]
+    else:
+        o = cls(x.copy(), dt)
+        ev = [{"op": "construct", "vals": enc_seq(x), "dt": enc(dt)}]
 
     def after():
         return enc_seq(np.asarray(o.values, dtype=float))
@@ -55,9 +65,10 @@ def session(kind, rng, length, ops_filter=None):
 
     reads = ["npts", "time_last", "values_k", "fas_bins", "fas", "fas_freq"]
     if kind == "AccSignal":
-        reads += ["pga", "pgv", "pgd", "velocity_last", "displacement_last", "arias_last", "cav_last"] * 2
+        reads += ["pga", "pgv", "pgd", "velocity_last", "displacement_last", "arias_last", "cav_last"] * 2 + ["response_spectrum"] * 3
     muts = ["reset_values", "add_constant", "add_series", "add_signal", "running_average", "remove_average", "remove_poly", "butter_pass"]
     if kind == "AccSignal":
+        muts += ["set_rt", "set_rt"]
         muts += ["rebase_displacement", "correct_me", "remove_rolling_average", "set_zero_residual_velocity",
                  "set_zero_residual_displacement", "set_zero_residual_displacement_and_velocity"]
     with warnings.catch_warnings():
@@ -67,6 +78,15 @@ def session(kind, rng, length, ops_filter=None):
             if rng.random() < 0.6:
                 w = reads[rng.integers(len(reads))]
                 k = 0
+                if w == "response_spectrum":
+                    # s_d / s_a read lazily (s_a first or s_d first); one period per event
+                    k = int(rng.integers(len(o.response_times)))
+                    if rng.integers(2):
+                        sa_, sd_ = float(o.s_a[k]), float(o.s_d[k])
+                    else:
+                        sd_, sa_ = float(o.s_d[k]), float(o.s_a[k])
+                    ev.append({"op": "read_rs", "k": k, "sd": enc(sd_), "sa": enc(sa_)})
+                    continue
                 if w == "values_k":
                     k = int(rng.integers(npts))
                 elif w in ("fas", "fas_freq"):
@@ -76,6 +96,22 @@ def session(kind, rng, length, ops_filter=None):
                 ev.append(read(w, k))
                 continue
             m = muts[rng.integers(len(muts))]
+            if m == "set_rt":
+                if rng.integers(3):
+                    _ = (o.s_a, o.s_d)            # spectra for the periods in force so far are memoised
+                rt = new_rt()
+                how = int(rng.integers(3))
+                if how == 0:
+                    o.response_times = rt.copy()
+                elif how == 1:
+                    o.gen_response_spectrum(response_times=rt.copy())
+                else:
+                    o.response_series(response_times=rt.copy())
+                ev.append({"op": "set_rt", "rt": enc_seq(rt)})
+                if rng.integers(3):
+                    k = int(rng.integers(len(rt)))
+                    ev.append({"op": "read_rs", "k": k, "sd": enc(float(o.s_d[k])), "sa": enc(float(o.s_a[k]))})
+                continue
             if m == "reset_values":
                 n2 = npts if rng.random() < 0.5 else int(rng.integers(8, 120))
                 y = _rec(n2, rng) * rng.uniform(0.5, 2)
